@@ -646,6 +646,14 @@ theorem dfs_sound {g : Str → Option (List Str)} : ∀ (n : Nat) (l vis v po : 
 
 /-! ## Nothing but the walk itself reports `fuel` -/
 
+theorem insertImpl_nofuel (m : Mapping) (k : Key) (v : Value) (a b : Bool) :
+    m.insertImpl k v a b ≠ .error .fuel := by
+  unfold Mapping.insertImpl
+  simp only []
+  split
+  · simp
+  · split <;> simp
+
 mutual
 theorem ofYaml_nofuel : ∀ y : Yaml, Value.ofYaml y ≠ .error .fuel
   | .null => by simp [Value.ofYaml]
@@ -694,18 +702,17 @@ theorem ofYamlEs_nofuel : ∀ (es : List (Yaml × Yaml)) (m : Mapping), ofYamlEs
       | ok v' =>
         simp only []
         cases hi : m.insert k' v' with
-        | error e => simp
+        | error e =>
+          simp only []
+          intro heq
+          injection heq with heq
+          subst heq
+          exact insertImpl_nofuel m k' v' false false hi
         | ok m' => simp only []; exact ofYamlEs_nofuel rest m'
 end
 
 
-theorem insertImpl_nofuel (m : Mapping) (k : Key) (v : Value) (a b : Bool) :
-    m.insertImpl k v a b ≠ .error .fuel := by
-  unfold Mapping.insertImpl
-  simp only []
-  split
-  · simp
-  · split <;> simp
+
 
 theorem mergeEntries_nofuel (ock ook : List Key) : ∀ (es : List (Key × Value)) (m : Mapping),
     m.mergeEntries ock ook es ≠ .error .fuel
